@@ -1177,6 +1177,12 @@ def check_grid_data_order(ctx, rid):
     if wr is None or rd is None:
         raise AnalysisError("cube: _write_cube_data / _read_cube_data not found")
     try:
+        # a z-run of twelve points: two full lines of six per run
+        sink = TextSink()
+        AccessorEval(prog, None, limit=8000).run_free(wr, [sink, data.reshape(2, 1, 12), 12], {})
+        counts = [len(ln.split()) for ln in sink.text.split("\n") if ln.strip()]
+        if counts != [6, 6, 6, 6]:
+            ctx.violate(rid, f"cube data: 2 x 1 x 12 grid points are written in lines of {counts} numbers; the format has six numbers per line", wr, wr.node, construct="cube data line length")
         sink = TextSink()
         AccessorEval(prog, None, limit=8000).run_free(wr, [sink, data, shape[2]], {})
         lines = [ln + "\n" for ln in sink.text.split("\n") if ln.strip()]
